@@ -5,6 +5,7 @@
 package c02
 
 import (
+	"bytes"
 	"fmt"
 	"os"
 	"strings"
@@ -80,7 +81,7 @@ func eval(c Case) *pbt.Fail {
 
 // loopy builds inputs aimed at the loops of the parsers.
 func loopy(rt *rapid.T) (string, []byte, string) {
-	switch rapid.IntRange(0, 6).Draw(rt, "loopy") {
+	switch rapid.IntRange(0, 8).Draw(rt, "loopy") {
 	case 0: // JPEG: EOI followed by markers, marker bytes at SOI depth 0
 		b := []byte{0xFF, 0xD8}
 		for i, n := 0, rapid.IntRange(0, 3).Draw(rt, "segs"); i < n; i++ {
@@ -121,6 +122,98 @@ func loopy(rt *rapid.T) (string, []byte, string) {
 			}
 		}
 		return "tiff", b, "ifd-cycle"
+	case 7: // XMP whose attribute / element values run up to and beyond the reader's look-ahead window, whole or cut mid-value
+		val := func(label string) []byte {
+			n := rapid.SampledFrom([]int{100, 127, 128, 253, 255, 256, 511, 512, 1023, 1024, 1025, 1500, 1537, 1538, 1539, 1600, 2048, 3100, 4097, 9000}).Draw(rt, label+".len") + rapid.IntRange(-3, 3).Draw(rt, label+".d")
+			return bytes.Repeat([]byte{rapid.SampledFrom([]byte{'a', ' ', '\n', '=', ':', '/', '>'}).Draw(rt, label+".ch")}, n)
+		}
+		b := []byte("<x:xmpmeta xmlns:x=\"adobe:ns:meta/\"><rdf:RDF xmlns:rdf=\"http://www.w3.org/1999/02/22-rdf-syntax-ns#\"><rdf:Description rdf:about=\"\" xmlns:dc=\"http://purl.org/dc/elements/1.1/\" xmlns:xmp=\"http://ns.adobe.com/xap/1.0/\"")
+		if rapid.Bool().Draw(rt, "attr?") {
+			b = append(append(append(b, " xmp:CreatorTool=\""...), val("attr")...), '"')
+		}
+		b = append(b, '>')
+		for i, n := 0, rapid.IntRange(1, 3).Draw(rt, "elems"); i < n; i++ {
+			name := rapid.SampledFrom([]string{"xmp:Label", "dc:format", "xmp:CreatorTool", "xmp:Unknown", "dc:title"}).Draw(rt, "elem")
+			b = append(append(append(append(b, '<'), name...), '>'), val("elem")...)
+			b = append(append(append(b, "</"...), name...), '>')
+		}
+		b = append(b, "</rdf:Description></rdf:RDF></x:xmpmeta>"...)
+		if rapid.Bool().Draw(rt, "cut?") {
+			b = b[:rapid.IntRange(len(b)/4, len(b)).Draw(rt, "cut")]
+		}
+		return "xmp", b, "xmp-long-values"
+	case 8: // many pending out-of-line tags, then the stream ends (or the declared block outruns the file) before their values
+		var p []byte
+		tablesEnd := 8
+		if rapid.Bool().Draw(rt, "handbuilt") {
+			// one directory of 17..84 entries whose ids the decoder parses (repeats allowed - hostile, not well-formed),
+			// each with an out-of-line ASCII/RATIONAL value at a distinct offset past the table
+			n := rapid.IntRange(17, 84).Draw(rt, "n")
+			ids := []uint16{0x010e, 0x010f, 0x0110, 0x0131, 0x0132, 0x013b, 0x8298, 0xc62f}
+			p = append(p, "II*\x00\x08\x00\x00\x00"...)
+			p = append(p, byte(n), 0)
+			base := 8 + 2 + 12*n + 4
+			step := rapid.SampledFrom([]int{8, 16, 64, 1000, 5000}).Draw(rt, "step")
+			for i := 0; i < n; i++ {
+				id := rapid.SampledFrom(ids).Draw(rt, "id")
+				off := uint32(base + i*step)
+				p = append(p, byte(id), byte(id>>8), 2, 0, 8, 0, 0, 0, byte(off), byte(off>>8), byte(off>>16), byte(off>>24))
+			}
+			p = append(p, 0, 0, 0, 0)
+			tablesEnd = len(p)
+			// the block (and so every enclosing box / segment / chunk length) covers all the values; the file is cut before them
+			// (the ISOBMFF box reader charges a failed skip against the box's remaining length, so only a block declared
+			// much longer than the stream keeps reaching the exhausted reader: the block is padded well past the values)
+			want := base + n*step + 8
+			if rapid.Bool().Draw(rt, "oversized") {
+				want = n*(base+n*step) + 8
+			}
+			pad := make([]byte, 0, 4096)
+			for len(pad) < 4096 {
+				pad = append(pad, "abcdefg\x00"...)
+			}
+			for len(p) < want && len(p) < 800000 {
+				p = append(p, pad...)
+			}
+		} else {
+			f := gen.GenExif(rt, gen.Options{Unbuffered: true, BigPending: true, MaxForeign: 2})
+			p = f.Enc.II
+			if rapid.Bool().Draw(rt, "mm") {
+				p = f.Enc.MM
+			}
+			for _, st := range f.Enc.Sites {
+				if strings.HasSuffix(st.Name, ".next") && st.Off+4 > tablesEnd {
+					tablesEnd = st.Off + 4
+				}
+			}
+		}
+		var data []byte
+		kind := rapid.SampledFrom([]string{"tiff", "jpeg", "cr3", "heif", "png"}).Draw(rt, "container")
+		switch kind {
+		case "tiff":
+			data = p
+		case "jpeg":
+			if len(p) > 65000 {
+				p = p[:65000]
+			}
+			data = gen.JPEGWith(rt, p)
+		case "cr3":
+			data, _ = gen.CR3With(rt, [4][]byte{p, nil, nil, nil})
+		case "heif":
+			data = gen.HEIFWith(rt, p)
+		default:
+			data = gen.PNGWith(rt, p)
+		}
+		at := bytes.Index(data, p[:16])
+		if at < 0 {
+			at = 0
+		}
+		lo := at + tablesEnd
+		if lo > len(data) {
+			lo = len(data)
+		}
+		cut := rapid.IntRange(lo, min(len(data), lo+rapid.SampledFrom([]int{0, 8, 64, 4096}).Draw(rt, "slack"))).Draw(rt, "cut")
+		return kind, data[:cut], "pending-then-eof"
 	default: // deep chains of 128-entry directories
 		var b []byte
 		b = append(b, "II*\x00\x08\x00\x00\x00"...)
@@ -186,7 +279,8 @@ func init() { pbt.Register(chk) }
 func TestProp(t *testing.T) {
 	defer rec.MustWrite()
 	rec.Rule("inputs: C01's corpus/encoder output with hostile edits and truncations, plus loop-targeting classes (EOI followed by markers, marker bytes at SOI depth 0, " +
-		"iinf/iloc boxes with zero/tiny sizes, TIFF scans over partial signatures, XMP with long white-space runs and unterminated tokens, IFD cycles, chains of 128-entry directories); " +
+		"iinf/iloc boxes with zero/tiny sizes, TIFF scans over partial signatures, XMP with long white-space runs and unterminated tokens, XMP attribute/element values up to and beyond the look-ahead window (whole or cut mid-value), " +
+		"60-84 pending out-of-line tags in every container with the stream ending right after the directory tables, IFD cycles, chains of 128-entry directories); " +
 		"oracle: bytes requested <= 4*len+64KiB, Read calls <= len+1024, return within 10s+50us/byte (a single expiry is re-run alone with twice the budget; only a second expiry is a hang). " +
 		"non-trivial = input carries a loop-bearing construct and is >= 32 bytes; distinct by (entry, input)")
 	rec.Assume("wall-clock time is an oracle only for non-termination, with a watchdog >= 10^4 x the nominal decode time and a confirming re-run")
